@@ -10,6 +10,9 @@ import (
 	"strconv"
 	"strings"
 	"time"
+
+	"golang.org/x/tools/go/ssa"
+	"golang.org/x/tools/go/ssa/ssautil"
 )
 
 type PropCfg struct {
@@ -52,6 +55,24 @@ func main() {
 	switch os.Args[1] {
 	case "check":
 		os.Exit(cmdCheck(os.Args[2:]))
+	case "dump":
+		// govc dump <pkgpattern> <func-substring>
+		eng, err := LoadEngine("/repo", "/verif", []string{os.Args[2]})
+		if err != nil {
+			die("%v", err)
+		}
+		for _, p := range eng.pkgs {
+			sp := eng.prog.Package(p.Types)
+			for fn := range ssautilAll(eng.prog) {
+				if fn.Pkg == sp && strings.Contains(fn.String(), os.Args[3]) {
+					loops, _ := findLoops(fn, nil)
+					fn.WriteTo(os.Stdout)
+					for _, l := range loops {
+						fmt.Printf("# loop %d header block %d\n", l.ordinal, l.header.Index)
+					}
+				}
+			}
+		}
 	default:
 		die("unknown command %s", os.Args[1])
 	}
@@ -144,6 +165,8 @@ func cmdCheck(args []string) int {
 	}
 	return rep.exitCode
 }
+
+func ssautilAll(prog *ssa.Program) map[*ssa.Function]bool { return ssautil.AllFunctions(prog) }
 
 func flagSet(fs *flag.FlagSet, name string) bool {
 	found := false
